@@ -7,6 +7,7 @@ import (
 	"sort"
 	"strings"
 	"sync"
+	"sync/atomic"
 
 	"golang.org/x/tools/go/ssa"
 )
@@ -34,19 +35,20 @@ type frame struct {
 type intrinsicFn func(r *Run, fr *frame, args []Value) Value
 
 type Engine struct {
-	prog       *ssa.Program
-	intrinsics map[string]intrinsicFn
-	initPkgs   map[string]bool
-	initOrder  []*ssa.Package
-	maxSteps   int
-	trace      bool
-	n          int
-	sched      string
-	race       bool // happens-before data-race detection (race.go)
-	fnCache    sync.Map // *ssa.Function -> *fnInfo
-	seenMu     sync.Mutex
-	funcsSeen  map[string]bool
-	stubsUsed  map[string]bool
+	prog         *ssa.Program
+	intrinsics   map[string]intrinsicFn
+	initPkgs     map[string]bool
+	initOrder    []*ssa.Package
+	maxSteps     int
+	trace        bool
+	n            int
+	sched        string
+	race         bool // happens-before data-race detection (race.go)
+	unsupSamples atomic.Int32
+	fnCache      sync.Map // *ssa.Function -> *fnInfo
+	seenMu       sync.Mutex
+	funcsSeen    map[string]bool
+	stubsUsed    map[string]bool
 }
 
 type fnInfo struct {
